@@ -1,5 +1,115 @@
+import Casket.Model.Replacer
+import Casket.Spec.Replacer
 import Driver.Proto
-/- Streams of C20 (stub: not built yet). -/
+/-
+Streams of C20.
+
+  c20.replace  fmt empty RAW remote REWRITE sets tls reqid mitm recorder resphdr osenv
+               reqhdr cookies query method host proto hostsplit remotesplit
+               origpath origrawquery origfragment origuri curpath cururi
+     RAW / REWRITE are only read by the Go side (it builds the real *http.Request from them and
+     checks that the "view" fields are what net/http derives from them).
+     lists: entries separated by ',', parts of an entry by ':', every part hex.
+     out = hex of the replaced string | PANIC
+-/
 namespace Driver.C20
-def streams : List Driver.Stream := []
+open Casket.Replacer
+
+def hexParts (s : String) : Option (List (List UInt8)) := (s.splitOn ":").mapM Driver.unhex
+
+def entries (s : String) : Option (List (List (List UInt8))) :=
+  if s = "" then some [] else (s.splitOn ",").mapM hexParts
+
+def pairs (s : String) : Option (List (Bytes × Bytes)) := do
+  let es ← entries s
+  es.mapM fun e => match e with
+    | [k, v] => some (k, v)
+    | _ => none
+
+def multi (s : String) : Option (List (Bytes × List Bytes)) := do
+  let es ← entries s
+  es.mapM fun e => match e with
+    | k :: vs => some (k, vs)
+    | _ => none
+
+def optPair (s : String) : Option (Option (Bytes × Bytes)) :=
+  if s = "-" then some none else
+  match hexParts s with
+  | some [a, b] => some (some (a, b))
+  | _ => none
+
+def optHex (s : String) : Option (Option Bytes) :=
+  if s = "-" then some none else (Driver.unhex s).map some
+
+def optNatPair (s : String) : Option (Option (Nat × Nat)) :=
+  if s = "-" then some none else
+  match s.splitOn ":" with
+  | [a, b] => do pure (some (← a.toNat?, ← b.toNat?))
+  | _ => none
+
+structure ReplaceCase where
+  fmt : Bytes
+  env : Env
+
+def parseReplace : List String → Option ReplaceCase
+  | [fmt, empty, _raw, remote, _rewrite, sets, tls, reqid, mitm, recorder, resphdr, osenv,
+     reqhdr, cookies, query, method, host, proto, hostsplit, remotesplit,
+     opath, orawq, ofrag, ouri, cpath, curi] => do
+    let sets ← pairs sets
+    let rec_ ← optNatPair recorder
+    let rh ← multi resphdr
+    let mitm ← (if mitm = "-" then some none else if mitm = "1" then some (some true)
+                else if mitm = "0" then some (some false) else none)
+    let env : Env := {
+      empty := ← Driver.unhex empty
+      -- Set() stores "{"+key+"}"; a later Set overwrites, so the last one must be found first
+      custom := (sets.map fun p => (lbr :: (p.1 ++ [rbr]), p.2)).reverse
+      reqHdr := ← multi reqhdr
+      respHdr := if rec_.isSome then some rh else none
+      cookies := ← pairs cookies
+      query := ← pairs query
+      osEnv := ← pairs osenv
+      method := ← Driver.unhex method
+      host := ← Driver.unhex host
+      proto := ← Driver.unhex proto
+      remoteAddr := ← Driver.unhex remote
+      hostSplit := ← optPair hostsplit
+      remoteSplit := ← optPair remotesplit
+      tls := tls = "1"
+      peerCert := false
+      origPath := ← Driver.unhex opath
+      origRawQuery := ← Driver.unhex orawq
+      origFragment := ← Driver.unhex ofrag
+      origURI := ← Driver.unhex ouri
+      curPath := ← Driver.unhex cpath
+      curURI := ← Driver.unhex curi
+      requestID := (← optHex reqid).getD []
+      mitm := mitm
+      recorder := rec_
+    }
+    pure { fmt := ← Driver.unhex fmt, env := env }
+  | _ => none
+
+def replaceModel (f : List String) : String :=
+  match parseReplace f with
+  | none => "bad-case"
+  | some c =>
+    match replace c.env c.fmt with
+    | .ok out => Driver.hex out
+    | .error .panic => "PANIC"
+    | .error .fuel => "FUEL"
+
+def replaceJudge (f : List String) (out : String) : String :=
+  match parseReplace f with
+  | none => "bad:unparsable:case"
+  | some c =>
+    if out = "PANIC" then Casket.ReplacerSpec.verdict c.env c.fmt .panic
+    else match Driver.unhex out with
+      | none => "bad:unparsable:" ++ out
+      | some b => Casket.ReplacerSpec.verdict c.env c.fmt (.out b)
+
+def streams : List Driver.Stream := [
+  { name := "c20.replace", model := replaceModel, judge := replaceJudge }
+]
+
 end Driver.C20
